@@ -46,6 +46,23 @@ class TrapBytesIO(_Trap, io.BytesIO):
     def getbuffer(self):
         self._trap("getbuffer")
 
+    # fault injection (environment answers): the k-th read from now on raises OSError once (k = 1: the next one)
+    fail_after = 0
+
+    def read(self, *a):
+        if self.fail_after:
+            self.fail_after -= 1
+            if self.fail_after == 0:
+                raise OSError(5, "injected I/O error")
+        return io.BytesIO.read(self, *a)
+
+    def readinto(self, b):
+        if self.fail_after:
+            self.fail_after -= 1
+            if self.fail_after == 0:
+                raise OSError(5, "injected I/O error")
+        return io.BytesIO.readinto(self, b)
+
 
 class SparseFile(_Trap):
     """Not an io.IOBase subclass on purpose: anything the library calls that is not defined here fails loudly."""
